@@ -583,7 +583,13 @@ def split_multiple_persons_names(names):
             # If we're at the end of the string, then the \ is just a \.
             except StopIteration:
                 pass
+            if step == NEXT_WORD and not bracelevel:
+                # An escaped character starts the next name.
+                spans[-1].append(possible_end)
+                spans.append([pos - 1])
             pos += 1
+            # An escaped character is never part of an ' and ' separator.
+            step = START_WHITESPACE
             continue
 
         # Change in brace level.
